@@ -232,3 +232,42 @@ func Test_Demo_MarkRootInvalid(t *testing.T) {
 		t.Errorf("no chain left")
 	}
 }
+
+// C09/C10: after Clean a third branch re-attached by Connect must report its headers at their true heights.
+func Test_Demo_ConnectHeights(t *testing.T) {
+	repo, ctx := demoRepo(t)
+	main := MockHeaders(ctx, repo, repo.LastHash(), 952644136, 10)
+	// fork A off height 5, 8 headers: becomes the best chain (tip 13)
+	prev := *main[4].BlockHash()
+	for i := 0; i < 8; i++ {
+		h := demoHeader(prev, 952650000+uint32(i))
+		if err := repo.ProcessHeader(ctx, h); err != nil {
+			t.Fatalf("fork A %d: %s", i, err)
+		}
+		prev = *h.BlockHash()
+	}
+	// fork B off height 3, 3 headers at heights 4, 5, 6
+	prev = *main[2].BlockHash()
+	var forkB []*wire.BlockHeader
+	for i := 0; i < 3; i++ {
+		h := demoHeader(prev, 952660000+uint32(i))
+		if err := repo.ProcessHeader(ctx, h); err != nil {
+			t.Fatalf("fork B %d: %s", i, err)
+		}
+		forkB = append(forkB, h)
+		prev = *h.BlockHash()
+	}
+	for i, h := range forkB {
+		if got := repo.HashHeight(*h.BlockHash()); got != 4+i {
+			t.Fatalf("before Clean: fork B header %d at height %d, want %d", i, got, 4+i)
+		}
+	}
+	if err := repo.consolidate(ctx); err != nil {
+		t.Fatalf("consolidate: %s", err)
+	}
+	for i, h := range forkB {
+		if got := repo.HashHeight(*h.BlockHash()); got != 4+i {
+			t.Errorf("after consolidate: fork B header %d reported at height %d, want %d", i, got, 4+i)
+		}
+	}
+}
